@@ -169,6 +169,21 @@ CLAIMED = {
              "value); metabolite, gene and model dictionaries are covered by the round-trip comparison only; groups are outside the dict formats.",
         technique="Lean 4 proof (round trip of the dictionary form) + differential correspondence + round-trip comparison on the real code",
         design="DESIGN.md section 5, C11"),
+    "C10": dict(
+        engine="io",
+        text="Lean 4 over the model of the SBML identifier layer (_f_*_rev: characters outside [0-9_a-zA-Z] -> __ord__, prefix; _f_*: leftmost "
+             "non-overlapping __(\\d+)__ -> chr, SBML_DOT for genes, prefix clipping) and of _create_bound: id_roundtrip proves f (fRev s) = s for "
+             "all four kinds and every identifier in the decidable SafeId (no '__<digit>' once the prefix is attached; no __SBML_DOT__ for genes), "
+             "the witnesses outside SafeId are theorems too (known finding), bound_roundtrip holds under any configured defaults. The model's escaped / "
+             "restored identifiers are compared with cobra.io.sbml on generated identifiers (lean --run). Generated rich models are written "
+             "(path, pathlib, handle, string; with / without id replacement; default / non-default Configuration().bounds), validated with "
+             "validate_sbml_model, read back, compared (15 significant digits), round-tripped twice; shipped SBML files are compared with libsbml's own "
+             "view of the file, written, validated and read again.",
+        note="Partial by nature: libsbml (document, XML text, validator, number formatting), notes / annotation XML and the fbc / groups plugins are "
+             "external and covered by the round-trip comparison only. Trusted: Lean kernel, standard axioms. Known findings (model / compartment ids "
+             "that are not SIds, empty objective, empty reaction, ids outside SafeId, parameter id collision) are listed in known_findings.json.",
+        technique="Lean 4 proof (identifier escaping and bound parameters) + differential correspondence + validated round trips on the real code",
+        design="DESIGN.md section 5, C10"),
 }
 
 PENDING_REASON = "check under construction in this session (see DESIGN.md section 9 build order); not claimed until its Lean model, theorems and correspondence exist"
@@ -211,8 +226,8 @@ def main():
              "kind_free_text": "Lean LP model + proved certificate checker (Model/LP.lean, Lemmas/LP.lean), untrusted exact simplex, constructive FBA instance generator"},
             {"name": "summary", "path": "harness/c20.py", "serves_properties": ["C20"],
              "kind_free_text": "Lean table model SummaryM + driver, compared with ModelSummary / MetaboliteSummary frames"},
-            {"name": "io", "path": "harness/richgen.py", "serves_properties": ["C11"],
-             "kind_free_text": "rich model generator / dump, Lean DictIO model + driver, round trips through every format"},
+            {"name": "io", "path": "harness/richgen.py", "serves_properties": ["C10", "C11"],
+             "kind_free_text": "rich model generator / dump, Lean DictIO and SbmlId models + drivers, round trips through every format"},
             {"name": "gpr", "path": "harness/c08.py", "serves_properties": ["C08"],
              "kind_free_text": "Lean model GPRM (rule trees, parser, remover) + generated escape tables + correspondence against cobra.core.gene.GPR"},
         ],
